@@ -36,10 +36,10 @@ theorem nameByte_ne {b : UInt8} (h : nameByte b = true) :
   obtain ⟨⟨⟨⟨⟨⟨⟨⟨⟨⟨h1, h2⟩, h3⟩, h4⟩, h5⟩, h6⟩, h7⟩, h8⟩, h9⟩, h10⟩, h11⟩ := h
   exact ⟨h1, h2, h3, h4, h5, h6, h7, h8, h9, h10, h11⟩
 
-theorem valueByte_ne {b : UInt8} (h : valueByte b = true) : b ≠ LT ∧ b ≠ GT ∧ b ≠ SPACE ∧ b ≠ EQS ∧ b ≠ QUOTE := by
+theorem valueByte_ne {b : UInt8} (h : valueByte b = true) : b ≠ LT ∧ b ≠ GT ∧ b ≠ SPACE ∧ b ≠ QUOTE := by
   simp only [valueByte, Bool.not_eq_true', Bool.or_eq_false_iff, decide_eq_false_iff_not] at h
-  obtain ⟨⟨⟨⟨h1, h2⟩, h3⟩, h4⟩, h5⟩ := h
-  exact ⟨h1, h2, h3, h4, h5⟩
+  obtain ⟨⟨⟨h1, h2⟩, h3⟩, h4⟩ := h
+  exact ⟨h1, h2, h3, h4⟩
 
 theorem not_mem_of_all {P : UInt8 → Bool} {c : UInt8} {l : Bytes} (h : ∀ b ∈ l, P b = true) (hc : P c = false) : c ∉ l := by
   intro hm; have := h c hm; rw [hc] at this; cases this
@@ -50,9 +50,9 @@ theorem name_not_mem {n : Bytes} (h : NameOk n) :
     not_mem_of_all h.2 (by decide), not_mem_of_all h.2 (by decide), not_mem_of_all h.2 (by decide)⟩
 
 theorem value_not_mem {v : Bytes} (h : ∀ b ∈ v, valueByte b = true) :
-    LT ∉ v ∧ GT ∉ v ∧ SPACE ∉ v ∧ EQS ∉ v ∧ QUOTE ∉ v := by
+    LT ∉ v ∧ GT ∉ v ∧ SPACE ∉ v ∧ QUOTE ∉ v := by
   refine ⟨not_mem_of_all h (by decide), not_mem_of_all h (by decide), not_mem_of_all h (by decide),
-    not_mem_of_all h (by decide), not_mem_of_all h (by decide)⟩
+    not_mem_of_all h (by decide)⟩
 
 /-- `name="value"` (an attribute piece without its leading space) -/
 def pairBytes (a : Bytes × Bytes) : Bytes := a.1 ++ EQS :: QUOTE :: (a.2 ++ [QUOTE])
@@ -124,21 +124,6 @@ theorem splitAux_cons_self (c : UInt8) (bs : Bytes) (st ln : Nat) :
     splitAux c (c :: bs) st ln = ⟨st, ln⟩ :: splitAux c bs (st + ln + 1) 0 := by
   rw [splitAux]; simp
 
-theorem splitAux_pair (a : Bytes × Bytes) (h : AttrOk a) (q : Nat) :
-    splitAux EQS (pairBytes a) q 0 = [⟨q, a.1.length⟩, ⟨q + a.1.length + 1, a.2.length + 2⟩] := by
-  have hn := (name_not_mem h.1).2.2.2.2.1
-  have hv := (value_not_mem h.2).2.2.2.1
-  unfold pairBytes
-  rw [splitAux_append_not_mem hn, splitAux_cons_self]
-  simp only [Nat.zero_add]
-  have : EQS ∉ QUOTE :: (a.2 ++ [QUOTE]) := by
-    simp only [List.mem_cons, List.mem_append, List.not_mem_nil, or_false, not_or]
-    exact ⟨by decide, hv, by decide⟩
-  rw [splitAux_none this]
-  simp only [List.length_cons, List.length_append, List.length_nil]
-  congr 2
-  congr 1; omega
-
 theorem loadAttr_render (doc : Bytes) (a : Bytes × Bytes) (h : AttrOk a) (q : Nat) (rest : Bytes) (le : Err)
     (hd : doc.drop q = pairBytes a ++ rest) :
     Ok (loadAttr doc ⟨q, (pairBytes a).length⟩ le)
@@ -146,14 +131,15 @@ theorem loadAttr_render (doc : Bytes) (a : Bytes × Bytes) (h : AttrOk a) (q : N
   have hne : pairBytes a ++ rest ≠ [] := by simp [pairBytes]
   have hlen := length_le_of_drop hd hne
   simp only [List.length_append] at hlen
-  unfold loadAttr
-  rw [splitOnChar_spec doc _ EQS 2 (by simp only; omega)]
-  simp only [bind, Except.bind]
-  have hseg : seg doc q (q + (pairBytes a).length) = pairBytes a := by
-    have := seg_of_drop hd 0 (pairBytes a).length
-    simpa using this
-  simp only [splitSpec, hseg, splitAux_pair a h q]
-  simp only [List.length_cons, List.length_nil, Nat.le_refl, if_true]
+  unfold loadAttr splitOnCharN1
+  rw [memchr_ok (by simp only; omega)]
+  have hseg : (doc.drop q).take (pairBytes a).length = a.1 ++ EQS :: (QUOTE :: (a.2 ++ [QUOTE])) := by
+    rw [hd, take_append_left']; rfl
+  have hpl : (pairBytes a).length = a.1.length + (a.2.length + 2) + 1 := by
+    simp [pairBytes]; omega
+  simp only [bind, Except.bind, pure, Except.pure, hseg, idxOf_at (name_not_mem h.1).2.2.2.2.1]
+  rw [memchr_ok (by omega)]
+  simp only [hpl, show a.1.length + (a.2.length + 2) + 1 - (a.1.length + 1) = a.2.length + 2 by omega]
   simp only [List.getElem?_cons_zero, List.getElem?_cons_succ, trimQuotes]
   have hq2 : q + a.1.length + 1 + (a.2.length + 2) ≤ doc.length := by
     simp only [pairBytes, List.length_append, List.length_cons, List.length_nil] at hlen; omega
@@ -181,7 +167,7 @@ theorem loadAttr_render (doc : Bytes) (a : Bytes × Bytes) (h : AttrOk a) (q : N
     rw [this, pairBytes, List.append_assoc, take_append_left']
   · simp only
     rw [viewBytes_some]
-    have key := trim_quoted a.2 (value_not_mem h.2).2.2.2.2
+    have key := trim_quoted a.2 (value_not_mem h.2).2.2.2
     simp only [List.length_cons, List.length_append, List.length_nil] at key
     have hl2 := leadQ_le (QUOTE :: (a.2 ++ [QUOTE]))
     simp only [List.length_cons, List.length_append, List.length_nil] at hl2
